@@ -250,7 +250,25 @@ struct Conv {
         note_exhaustive(name() + ": all " + std::to_string(n) + " extent vectors with extents in 1.." + std::to_string(Bd));
         const uint64_t ms = N == 1 ? 2000 : N == 2 ? 300 : N == 3 ? 40 : 14;
         rc_campaign<Case>(
-            name(), tier(25, 800), 100, rc::gen::map(rc::gen::tuple(gen_extents(N, ms), rc::gen::arbitrary<uint64_t>(), rc::gen::arbitrary<bool>()), [](std::tuple<std::vector<uint64_t>, uint64_t, bool> t) { return Case{std::get<0>(t), std::get<1>(t), std::get<2>(t), {}}; }), run
+            name(), tier(25, 800), 100, rc::gen::map(rc::gen::tuple(gen_extents(N, ms), rc::gen::arbitrary<uint64_t>(), rc::gen::arbitrary<bool>()), [](std::tuple<std::vector<uint64_t>, uint64_t, bool> t) {
+                std::vector<uint64_t> ext = std::get<0>(t);
+                if constexpr (sizeof(I) < 4) {
+                    // the row-major layer (source, or the intermediate a curve-layout source is built from) computes its flat
+                    // index in the coordinate type: with a 16-bit coordinate scalar a field has at most 2^16 cells (the property
+                    // lists size_t coordinates for conversions; the narrow instantiations exist for the curve layouts' own arithmetic)
+                    uint64_t cells = 1;
+                    for (auto x : ext) {
+                        cells *= x;
+                    }
+                    while (cells > (uint64_t(1) << (8 * sizeof(I)))) {
+                        size_t k = size_t(std::max_element(ext.begin(), ext.end()) - ext.begin());
+                        cells /= ext[k];
+                        ext[k] = (ext[k] + 1) / 2;
+                        cells *= ext[k];
+                    }
+                }
+                return Case{ext, std::get<1>(t), std::get<2>(t), {}};
+            }), run
         );
     }
     static void reg()
